@@ -63,6 +63,8 @@ structure Cbs where
   pw : Bool
   pk : Bool
   kbd : Bool
+  /-- GSSAPIWithMICConfig with both AllowLogin and Server set -/
+  gss : Bool := false
 deriving DecidableEq, Repr, Inhabited
 
 /-- what a scripted callback returns.  Permissions are named by an id; id 0 is the nil pointer. -/
@@ -160,6 +162,39 @@ structure PkReq where
   sigValidNT : Bool := false  -- ORACLE: same with the user-presence requirement waived (SK keys)
 deriving DecidableEq, Repr, Inhabited
 
+/-- a packet that follows a USERAUTH_REQUEST in the client's stream and is meant for the exchange that
+    request starts (keyboard-interactive answers, GSS-API tokens and MIC).  Message numbers overlap:
+    INFO_RESPONSE and GSSAPI_TOKEN are both 61, so each kind is also read in the other context. -/
+inductive Follow where
+  | infoResp (n : Nat)   -- well-formed USERAUTH_INFO_RESPONSE with n (non-empty) answers
+  | infoRespBad          -- type 61, answer count and data inconsistent
+  | gssToken             -- USERAUTH_GSSAPI_TOKEN with an 8-byte token
+  | gssMic               -- USERAUTH_GSSAPI_MIC
+  | other                -- a message of another type (here: a USERAUTH_REQUEST)
+deriving DecidableEq, Repr, Inhabited
+
+/-- what `parseGSSAPIPayload` and the OID scan make of the request payload -/
+inductive GssPayload where
+  | malformed   -- count / string / DER errors, trailing bytes
+  | n0          -- zero mechanisms
+  | noKrb       -- mechanisms, none of them Kerberos V5
+  | krb         -- Kerberos V5 is among the mechanisms
+deriving DecidableEq, Repr, Inhabited
+
+/-- one scripted `GSSAPIServer.AcceptSecContext` result -/
+structure GssStep where
+  err : Bool        -- returns an error
+  out : Bool        -- a non-empty output token
+  cont : Bool       -- needContinue
+deriving DecidableEq, Repr, Inhabited
+
+structure GssReq where
+  payload : GssPayload := .krb
+  steps : List GssStep := []
+  /-- ORACLE: `VerifyMIC(buildMIC(sessionID, user, service, method), MIC)` succeeds -/
+  micOk : Bool := false
+deriving DecidableEq, Repr, Inhabited
+
 structure Req where
   user : String
   service : String
@@ -167,8 +202,15 @@ structure Req where
   pwShape : PwShape := .ok
   password : String := ""
   pk : PkReq := {}
+  /-- keyboard-interactive: the numbers of questions of the Challenge calls the callback makes, in
+      order (it stops and rejects at the first Challenge that returns an error) -/
+  kbdRounds : List Nat := []
+  gss : GssReq := {}
+  /-- the packets that follow this request before the next USERAUTH_REQUEST -/
+  follow : List Follow := []
   /-- outcome of the method's own callback (NoClientAuthCallback / PasswordCallback /
-      KeyboardInteractiveCallback / PublicKeyCallback) if it is invoked on this request -/
+      KeyboardInteractiveCallback (after its Challenge rounds) / PublicKeyCallback /
+      GSSAPIWithMICConfig.AllowLogin) if it is invoked on this request -/
   cb : Outcome := .reject
   /-- outcome of VerifiedPublicKeyCallback if it is invoked on this request -/
   vcb : Outcome := .reject
@@ -227,6 +269,13 @@ inductive Ev where
   | cbKbd (gen : Nat) (user : String) (out : Outcome)
   | cbPk (gen : Nat) (user : String) (key : Nat) (out : Outcome)
   | cbVpk (user : String) (key : Nat) (permsIn : Nat) (sigFormat : String) (out : Outcome)
+  | sendInfoReq (questions : Nat)            -- USERAUTH_INFO_REQUEST written by Challenge
+  | sendGssResponse                          -- USERAUTH_GSSAPI_RESPONSE (Kerberos V5 OID)
+  | sendGssToken                             -- USERAUTH_GSSAPI_TOKEN (AcceptSecContext output)
+  | gssAccept                                -- GSSAPIServer.AcceptSecContext called
+  | gssVerifyMic                             -- GSSAPIServer.VerifyMIC called
+  | gssDelete                                -- GSSAPIServer.DeleteSecContext called
+  | cbGssAllow (gen : Nat) (user : String) (out : Outcome)   -- GSSAPIWithMICConfig.AllowLogin
   | log (method : String) (res : LogRes)
 deriving DecidableEq, Repr, Inhabited
 
@@ -337,9 +386,91 @@ def pwPhase (st : St) (r : Req) : Phase :=
   if r.pwShape != .ok then .hard [] else
   .res st [Ev.cbPw st.gen st.user r.password r.cb] (r.cb.split st.attempts).1 (r.cb.split st.attempts).2
 
+/-- a packet read by `Challenge` is a USERAUTH_INFO_RESPONSE answering `q` questions -/
+def answers (q : Nat) : Follow → Bool
+  | .infoResp n => n == q
+  | _ => false
+
+/-- the Challenge calls of the callback: (all succeeded, events, packets consumed).  Each call
+    writes an INFO_REQUEST and reads one packet; an exhausted stream is io.EOF. -/
+def kbdRounds : List Nat → List Follow → Bool × List Ev × Nat
+  | [], _ => (true, [], 0)
+  | q :: _, [] => (false, [Ev.sendInfoReq q], 0)
+  | q :: qs, f :: rest =>
+    if answers q f then
+      let r := kbdRounds qs rest
+      (r.1, Ev.sendInfoReq q :: r.2.1, r.2.2 + 1)
+    else (false, [Ev.sendInfoReq q], 1)
+
 def kbdPhase (st : St) (r : Req) : Phase :=
   if !st.cbs.kbd then .res st [] 0 .fail else
-  .res st [Ev.cbKbd st.gen st.user r.cb] (r.cb.split st.attempts).1 (r.cb.split st.attempts).2
+  let k := kbdRounds r.kbdRounds r.follow
+  if k.1 then
+    .res st (Ev.cbKbd st.gen st.user r.cb :: k.2.1) (r.cb.split st.attempts).1 (r.cb.split st.attempts).2
+  else .res st (Ev.cbKbd st.gen st.user r.cb :: k.2.1) 0 .fail
+
+/-- a packet that unmarshals as USERAUTH_GSSAPI_TOKEN (an INFO_RESPONSE with no answers does) -/
+def isToken : Follow → Bool
+  | .gssToken => true
+  | .infoResp 0 => true
+  | _ => false
+
+/-- how `gssExchangeToken` ends -/
+inductive GssEnd where
+  | hard                -- read / unmarshal error: `return nil, nil, err`
+  | fail                -- AcceptSecContext error: authErr = err
+  | mic                 -- the MIC packet has been read
+deriving DecidableEq, Repr, Inhabited
+
+/-- the AcceptSecContext loop and the read of the MIC: (end, events, packets consumed).
+    A scripted server that has run out of steps returns an error. -/
+def gssExchange : List GssStep → List Follow → GssEnd × List Ev × Nat
+  | [], _ => (.fail, [Ev.gssAccept], 0)
+  | s :: ss, fl =>
+    if s.err then (.fail, [Ev.gssAccept], 0) else
+    let evs := Ev.gssAccept :: (if s.out then [Ev.sendGssToken] else [])
+    match fl with
+    | [] => (.hard, evs, 0)
+    | f :: rest =>
+      if s.cont then
+        if isToken f then
+          let r := gssExchange ss rest
+          (r.1, evs ++ r.2.1, r.2.2 + 1)
+        else (.hard, evs, 1)
+      else if f == .gssMic then (.mic, evs, 1) else (.hard, evs, 1)
+
+/-- `case "gssapi-with-mic":` -/
+def gssPhase (st : St) (r : Req) : Phase :=
+  if !st.cbs.gss then .res st [] 0 .fail else
+  match r.gss.payload with
+  | .malformed => .hard []
+  | .n0 => .res st [] 0 .fail
+  | .noKrb => .res st [] 0 .fail
+  | .krb =>
+    match r.follow with
+    | [] => .hard [Ev.sendGssResponse]
+    | f :: rest =>
+      if !isToken f then .hard [Ev.sendGssResponse] else
+      let x := gssExchange r.gss.steps rest
+      match x.1 with
+      | .hard => .hard (Ev.sendGssResponse :: x.2.1 ++ [Ev.gssDelete])
+      | .fail => .res st (Ev.sendGssResponse :: x.2.1 ++ [Ev.gssDelete]) 0 .fail
+      | .mic =>
+        if !r.gss.micOk then .res st (Ev.sendGssResponse :: x.2.1 ++ [Ev.gssVerifyMic, Ev.gssDelete]) 0 .fail
+        else .res st (Ev.sendGssResponse :: x.2.1 ++ [Ev.gssVerifyMic, Ev.cbGssAllow st.gen st.user r.cb, Ev.gssDelete])
+          (r.cb.split st.attempts).1 (r.cb.split st.attempts).2
+
+/-- how many of the request's follow-up packets its processing reads -/
+def consumedBy (st : St) (r : Req) : Nat :=
+  if r.method == "keyboard-interactive" then
+    if st.cbs.kbd then (kbdRounds r.kbdRounds r.follow).2.2 else 0
+  else if r.method == "gssapi-with-mic" then
+    if st.cbs.gss && r.gss.payload == .krb then
+      match r.follow with
+      | [] => 0
+      | f :: rest => if isToken f then 1 + (gssExchange r.gss.steps rest).2.2 else 1
+    else 0
+  else 0
 
 /-- the `switch userAuthReq.Method` -/
 def methodPhase (cfg : Cfg) (st : St) (r : Req) : Phase :=
@@ -347,11 +478,12 @@ def methodPhase (cfg : Cfg) (st : St) (r : Req) : Phase :=
   else if r.method == "password" then pwPhase st r
   else if r.method == "keyboard-interactive" then kbdPhase st r
   else if r.method == "publickey" then pkPhase cfg st r
-  else .res st [] 0 .fail   -- gssapi-with-mic is never configured here; unknown methods
+  else if r.method == "gssapi-with-mic" then gssPhase st r
+  else .res st [] 0 .fail   -- unknown methods
 
 def methodsOf (c : Cbs) : List String :=
   (if c.pw then ["password"] else []) ++ (if c.pk then ["publickey"] else []) ++
-  (if c.kbd then ["keyboard-interactive"] else [])
+  (if c.kbd then ["keyboard-interactive"] else []) ++ (if c.gss then ["gssapi-with-mic"] else [])
 
 def AuthErr.logRes : AuthErr → LogRes
   | .ok => .ok
@@ -430,9 +562,13 @@ def loop (cfg : Cfg) : St → List Read → List Ev × Final
     | .req r =>
       match step cfg st r with
       | .done evs f => (evs, f)
-      | .cont st evs =>
-        let (evs', f) := loop cfg st rest
-        (evs ++ evs', f)
+      | .cont st' evs =>
+        if consumedBy st r < r.follow.length then
+          -- a follow-up packet nobody read is what the loop reads next: it is not a USERAUTH_REQUEST
+          if tooMany cfg st' then (evs ++ [Ev.sendDisconnect], .authErr) else (evs, .err)
+        else
+          let (evs', f) := loop cfg st' rest
+          (evs ++ evs', f)
 
 def St.init (cfg : Cfg) : St := { cbs := cfg.cbs }
 
